@@ -235,20 +235,10 @@ def check(rep, tier, seed):
             key = "%s/%s" % (c.meta["engine"], kind)
             hits[key] = hits.get(key, 0) + 1
     rep.cov["cas_class_delete_failures"] = dict(sorted(hits.items()))
-    for c in cases:
-        rep.count_case(c)
-        if c.meta.get("race"):
-            from .. import sched
-            hit = sched.oracle_c01(c) or sched.oracle_cf_justified(c) or hist.check_reads(c)
-        else:
-            hit = oracle(c)
-        if hit:
-            if core.handle_oracle_hit(rep, "C07", hit[1], c, hit[0], hit[1]):
-                return
-            continue
-        if c.diff() is not None:
-            core.handle_diff(rep, "C07", "correspondence", c)
-            return
+    from .. import sched
+    pick = lambda c: (sched.oracle_c01(c) or sched.oracle_cf_justified(c) or hist.check_reads(c)) if c.meta.get("race") else oracle(c)
+    if core.judge(rep, "C07", cases, pick):
+        return
     # the injected failures must have been what the masks say (the check would be vacuous otherwise)
     for c in cases:
         if c.meta.get("directed"):
